@@ -878,6 +878,9 @@ func (it *vmInterp) run(atoms []Atom, hp *HandlerPath) {
 						for i, nm := range vs.Names {
 							if i < len(vs.Values) {
 								it.vars[info.Defs[nm]] = it.origin(hp, vs.Values[i])
+							} else if len(vs.Values) == 0 {
+								// `var result interface{}`: the zero value until assigned on this path
+								it.vars[info.Defs[nm]] = &Origin{Kind: "zero", Event: -1, Expr: nm}
 							}
 						}
 					}
